@@ -22,7 +22,7 @@ from ..shims import scipy_shim as SS
 from ..shims.np_shim import SymArray
 from .common import (P, box, evalf, model_floats, not_close, paths, rng, K, Q, Sym, lift, simp, fresh, uf_callable)
 from .resv import FluidStub, load_reservoir, times, rows_of, policy_exact
-from .c01 import _DuckFluid, _real_run
+from .c01 import _DuckFluid, _real_run, replay_series_time  # noqa: F401
 
 
 def scipy_defaults():
@@ -298,7 +298,7 @@ def replay_reused_fluid(model, nx=4):
                             "inputs": {}}
 
 
-def job_rows(job, cls, nx, nt, schedule=False, reachable=False, tdtype="f8", reused_fluid=False):
+def job_rows(job, cls, nx, nt, schedule=False, reachable=False, tdtype="f8", reused_fluid=False, tseries=False):
     """reachable=False: every level is havoc'd inside C01's bounds (covers any number of steps; a counterexample may
     start from a level no run reaches and is then not confirmed by the replay).  reachable=True: the levels are the
     exact solutions from the real initial state (the first nt-1 steps only), so a counterexample is a real run."""
@@ -307,7 +307,7 @@ def job_rows(job, cls, nx, nt, schedule=False, reachable=False, tdtype="f8", reu
     job.stub("linear solve: capturing stub (records A, b, keyword arguments; returns an arbitrary vector - every level is havoc'd, "
              "bounded above by the initial value as C01 establishes)", "scipy.sparse.diags: exact dense model", "fluid*: contract stub")
     job.bound(rows_nx=nx, rows_steps=nt - 1)
-    tag = f"{cls}[nx={nx},steps={nt - 1}{',schedule' if schedule else ''}{',from the initial state' if reachable else ''}{',integer time grid' if tdtype != 'f8' else ''}{',object re-used after its fluid was replaced' if reused_fluid else ''}]"
+    tag = f"{cls}[nx={nx},steps={nt - 1}{',schedule' if schedule else ''}{',from the initial state' if reachable else ''}{',integer time grid' if tdtype != 'f8' else ''}{',object re-used after its fluid was replaced' if reused_fluid else ''}{',time grid a pandas Series' if tseries else ''}]"
     if reachable:
         job.solve_defaults = {"elim": True}
     hold = {}
@@ -341,6 +341,10 @@ def job_rows(job, cls, nx, nt, schedule=False, reachable=False, tdtype="f8", reu
         t, _ = times(nt)
         if tdtype != "f8":
             t = SymArray(list(t.d), tdtype)       # the stored field must not take its dtype (or anything else) from the time grid
+        if tseries:
+            # the 'Days' column of a production table (default labels 0..nt-1): each step uses ITS OWN increment, taken by position
+            from ..shims.pd_shim import SymSeries
+            t = SymSeries(list(t.d), t.dtype_tag, list(range(nt)))
         if cls == "IdealReservoir":
             hold["hi"] = Q(1)
             r = mod.IdealReservoir(Q(nx), fresh("pf"), fresh("pi", pos=True), None)
@@ -364,8 +368,14 @@ def job_rows(job, cls, nx, nt, schedule=False, reachable=False, tdtype="f8", reu
         return r, fluid, t, list(SS.LinSolve.calls)
 
     rp = (replay_reused_fluid, {"nx": nx}) if reused_fluid else (replay_rows, {"cls": cls, "nx": nx, "nt": nt, "schedule": schedule, "tdtype": tdtype})
+    if tseries:
+        from .c01 import replay_series_time
+        rp = (replay_series_time, {"cls": cls, "nx": nx})
     for k, pr in enumerate(paths(job, run, [], max_paths=16)):
         if pr.exc is not None:
+            if tseries:
+                job.prove(f"{tag}/raises {type(pr.exc).__name__}[path{k}]", pr.pc, bound=f"nx={nx}", replay=rp, note=repr(pr.exc)[:100])
+                continue
             job.errors.append(f"{tag} raised {pr.exc!r}")
             continue
         r, fluid, t, calls = pr.value
@@ -504,7 +514,7 @@ def job_flag(job, cls, nx=4):
 
 
 # concrete replays run on the real code when the changed code uses something the engine does not model (harness.finish)
-FALLBACK = [(replay_rows, {}), (replay_rows, {"cls": "IdealReservoir"}), (replay_rows, {"schedule": True}), (replay_rows, {"tdtype": "i8"}), (replay_tolerance, {}), (replay_flag, {})]
+FALLBACK = [(replay_rows, {}), (replay_rows, {"cls": "IdealReservoir"}), (replay_rows, {"schedule": True}), (replay_rows, {"tdtype": "i8"}), (replay_tolerance, {}), (replay_flag, {}), (replay_series_time, {}), (replay_series_time, {"cls": "IdealReservoir"})]
 
 
 def jobs(tier):
@@ -517,6 +527,7 @@ def jobs(tier):
         for nx in ((3, 4) if tier == "quick" else (3, 4, 5, 6)):
             out.append((f"rows-reach-{cls[:6]}-{nx}", lambda j, c=cls, n=nx: job_rows(j, c, n, 3, schedule=(c != "IdealReservoir"), reachable=True)))
         out.append((f"rows-reach-inttime-{cls[:6]}-3", lambda j, c=cls: job_rows(j, c, 3, 3, schedule=False, reachable=True, tdtype="i8")))
+        out.append((f"rows-reach-series-time-{cls[:6]}-3", lambda j, c=cls: job_rows(j, c, 3, 3, schedule=False, reachable=True, tseries=True)))
         if cls != "IdealReservoir":
             out.append(("rows-reach-reused-fluid-3", lambda j: job_rows(j, "SinglePhaseReservoir", 3, 3, reachable=True, reused_fluid=True)))
         out.append((f"tolerance-{cls[:6]}", lambda j, c=cls: job_tolerance(j, c)))
